@@ -353,7 +353,13 @@ def c11(r):
             # copy: between one request per job and one per list entry
             entries = [x for x in bf['jobs'] if bf['nodes'][x][4] is None] + \
                 sorted({x for (x, t, rid) in c['released'] if bf['nodes'][x][4] is None})
-            if bool(nexts) != bool(need_fresh) or not len(need_fresh) <= len(nexts) <= max(len(entries), len(need_fresh)):
+            # (after a refused request the bookkeeping of which kept entry still
+            # needs an id depends on the order of the farm's list: the count is
+            # compared in histories without refused requests only; the values of
+            # the ids handed out are checked above in every history)
+            faulted = any(e[0] == 'tickf' for e in W.r['events'][:c['i']])
+            if not faulted and (bool(nexts) != bool(need_fresh) or
+                                not len(need_fresh) <= len(nexts) <= max(len(entries), len(need_fresh))):
                 out.append(('fields', {'field': 'runid'}, 'db.next() consulted %d times for %d jobs without run id' % (len(nexts), len(need_fresh)), c['i']))
             if not active_before and (ob['outs'] or ob != dict(bf, outs=ob['outs'])):
                 pass
